@@ -133,6 +133,7 @@ class SchemaOpts:
         self.title_single = False
         self.simple = False
         self.null_sub = False
+        self.oddnames = False       # declared names that are not plain words (must be quoted in a text)
         self.__dict__.update(kw)
 
 
@@ -157,7 +158,10 @@ def gen_schema(rng, so=None, depth=0, counter=None):
                     sub = None      # CFG_SEC(name, NULL, CFGF_KEYSTRVAL)
                 decls.append(D('k%d' % k, 'sec', fl | F_KEYSTRVAL, sub=sub))
             else:
-                decls.append(D('s%d' % k, 'sec', fl, sub=gen_schema(rng, so, depth + 1, counter)))
+                sname = 's%d' % k
+                if so.oddnames and rng.random() < 0.06:
+                    sname = rng.choice(['my section %d', 'sec#%d', 'se"c%d']) % k
+                decls.append(D(sname, 'sec', fl, sub=gen_schema(rng, so, depth + 1, counter)))
             continue
         if so.funcs and r < 0.36:
             decls.append(D('fn%d' % k, 'func', 0, cbs='F'))
@@ -184,6 +188,8 @@ def gen_schema(rng, so=None, depth=0, counter=None):
         name = ('%s%d' % (t[0], k)) if not so.nocase_names else rng.choice(['%s%d', '%sX%d', '%sx%d']) % (t[0].upper() if rng.random() < 0.5 else t[0], k)
         if rng.random() < 0.03:
             name += '_with_a_name_longer_than_thirty_two_bytes'
+        if so.oddnames and rng.random() < 0.08:
+            name = rng.choice(['allowed hosts %d', 'ports#tcp%d', 'q"uote%d', "it's %d", 'plus+%d', 'br{ace%d', 'star*%d', 'dollar$%d', 'sl//ash%d', 'comma,%d']) % k
         if so.simple and not (fl & F_LIST) and rng.random() < 0.12:
             decls.append(D(name, t, 0, None if t == 'str' else dv, simple=True))
             continue
@@ -217,7 +223,7 @@ def gen_items(rng, decls, toks, depth=0, nitems=None, fancy=True, used_titles=No
         if to.get('nocase') and rng.random() < 0.5:
             name = ''.join(c.upper() if rng.random() < 0.5 else c.lower() for c in name)
         if d.typ == 'sec':
-            toks.append(['name', name, name])
+            toks.append(['name', name if word_ok(name) else spell_string(rng, name, fancy), name])
             if d.flags & F_TITLE:
                 pool = to.get('titles') or TITLES
                 t = rng.choice(pool)
@@ -242,7 +248,7 @@ def gen_items(rng, decls, toks, depth=0, nitems=None, fancy=True, used_titles=No
                 gen_items(rng, d.sub or [], toks, depth + 1, None, fancy, to=to)
             toks.append(['}', '}', None])
         elif d.typ == 'func':
-            toks.append(['name', name, name])
+            toks.append(['name', name if word_ok(name) else spell_string(rng, name, fancy), name])
             toks.append(['(', '(', None])
             na = rng.randint(0, 3)
             for i in range(na):
@@ -252,7 +258,7 @@ def gen_items(rng, decls, toks, depth=0, nitems=None, fancy=True, used_titles=No
                 toks.append(['val', spell_string(rng, s, fancy), s])
             toks.append([')', ')', None])
         elif d.is_list:
-            toks.append(['name', name, name])
+            toks.append(['name', name if word_ok(name) else spell_string(rng, name, fancy), name])
             op = '+=' if rng.random() < 0.4 else '='
             toks.append([op, op, None])
             if rng.random() < 0.15:
@@ -266,12 +272,12 @@ def gen_items(rng, decls, toks, depth=0, nitems=None, fancy=True, used_titles=No
                     toks.append(val_token(rng, d.typ, fancy)[0])
                 toks.append(['}', '}', None])
         else:
-            toks.append(['name', name, name])
+            toks.append(['name', name if word_ok(name) else spell_string(rng, name, fancy), name])
             toks.append(['=', '=', None])
             toks.append(val_token(rng, d.typ, fancy)[0])
 
 
-ODD_KEYS = ['a b', 'x#y', 'q"r', 'k+', 'br{ace', 'clo}se', 'two\nlines', 'a,b', 'p(q)', 'sl//ash', 'st/*ar', 'dollar$x', "it's", 'back\\slash', 'tab\there', '\xe9t\xe9', '*', '+=', '${HOME}']
+ODD_KEYS = ['a b', 'x#y', 'q"r', 'k+', 'br{ace', 'clo}se', 'two\nlines', 'a,b', 'p(q)', 'sl//ash', 'st/*ar', 'dollar$x', "it's", 'back\\slash', 'tab\there', '\xe9t\xe9', '*', '+=', '${HOME}', 'a|b', 'x=y', 'alpha|z', '|', 'k1=0|x']
 
 
 def gen_keyvals(rng, d, toks, fancy, to):
